@@ -129,7 +129,7 @@ def main():
     rac.section("containers", "managers over the library's own container type (the AttrDict that manager.ref() creates by default, also nested), "
                 "objects with attributes and lists, definitions and follow-up assignments made through the item AND the attribute route; "
                 "frozen managers; also copy.deepcopy: the restored manager's containers show the same contents as the original's after each "
-                "mirrored assignment, and stay independent", "5 scenarios x 2 copy routes")
+                "mirrored assignment, and stay independent", "7 scenarios x 2 copy routes")
     SC = {
         "default container, item route": ("m = xdeps.Manager(); r = m.ref(); r['a'] = 1.0; r['b'] = r['a'] * 2", "_",
                                           ["r['a'] = 7.0", "r['b'] = 1.0", "r['a'] = 2.0"]),
@@ -140,6 +140,10 @@ def main():
         "object with attributes": ("class O:\n    pass\nglobals()['O'] = O\no = O(); o.x = 1.0; o.y = 0.0\nm = xdeps.Manager(); r = m.ref(o, 'o')\nr.y = r.x + 1",
                                    "o", ["r.x = 4.0", "r.y = 2.0", "r.x = 5.0"]),
         "frozen": ("m = xdeps.Manager(); r = m.ref(); r['a'] = 1.0; r['b'] = r['a'] * 2; m.freeze_tree()", "_", ["r['a'] = 7.0", "r.a = 8.0"]),
+        # Manager.refattr: attribute access on the top-level ref means ITEM access (the class of the restored ref matters)
+        "refattr container": ("m = xdeps.Manager(); r = m.refattr({'a': 1.0, 'b': 0.0, 'c': 0.0}, 'g'); r.b = r.a * 2; r['c'] = r['b'] + r.a", "g",
+                              ["r.a = 7.0", "r['a'] = 3.0", "r.b = r.a + 10", "r.a = -1.0", "r.c = 0.5"]),
+        "refattr default container": ("m = xdeps.Manager(); r = m.refattr(); r.a = 1.0; r.b = r.a * 2", "_", ["r.a = 7.0", "r.b = 4.0", "r.a = 2.0"]),
     }
     SNAP = ("def snap(x, depth=0):\n    if isinstance(x, dict):\n        return ('dict', sorted((str(k), snap(v, depth + 1)) for k, v in x.items()), "
             "sorted((str(k), snap(v, depth + 1)) for k, v in vars(x).items()) if hasattr(x, '__dict__') and depth < 4 else None)\n"
@@ -173,6 +177,8 @@ def main():
             bad = None
             if r2._owner is r._owner:
                 bad = "the copy shares its container with the original"
+            elif type(r2) is not type(r):
+                bad = f"the restored top-level reference is a {type(r2).__name__}, the original a {type(r).__name__}"
             elif snap(r._owner) != snap(r2._owner):
                 bad = f"restored contents {snap(r2._owner)} != original {snap(r._owner)}"
             else:
